@@ -8,6 +8,7 @@ From PM.theories Require Import Base Expr Struct FrBaseA FrSpecA Lrc FrAscii Pdu
                                 EndToEnd EndToEndSerial CorrE2E.
 From PM.Generated Require Import GenFramerA.
 From PM.Generated Require GenServer.
+From PM.theories Require Crc FrSpecB.
 Open Scope string_scope.
 Open Scope list_scope.
 Open Scope Z_scope.
@@ -17,6 +18,10 @@ Definition req_frame (q : e2e_req) : frame :=
   {| f_tid := q_tid q; f_pid := q_pid q; f_uid := q_uid q; f_pdu := sreq_pdu (q_body q) |}.
 
 Definition req_adu_ascii (q : e2e_req) : bytes := spec_adu_ascii (q_uid q) (sreq_pdu (q_body q)).
+
+(* RTU: unit, PDU, CRC-16 (low byte first) *)
+Definition rtu_adu : adu_fn := fun q pdu => FrSpecB.spec_adu_rtu (Z.to_N (q_uid q)) pdu.
+Definition req_adu_rtu (q : e2e_req) : bytes := FrSpecB.spec_adu_rtu (Z.to_N (q_uid q)) (sreq_pdu (q_body q)).
 
 (* ---------------------------------------------------------------- cases *)
 Inductive serial_kind := SAscii | SRtu.
@@ -33,9 +38,9 @@ Record serial_case := {
 }.
 
 Definition serial_req_adu (k : serial_kind) : e2e_req -> bytes :=
-  match k with SAscii => req_adu_ascii | SRtu => req_adu_ascii end.
+  match k with SAscii => req_adu_ascii | SRtu => req_adu_rtu end.
 Definition serial_adu (k : serial_kind) : adu_fn :=
-  match k with SAscii => ascii_adu | SRtu => ascii_adu end.
+  match k with SAscii => ascii_adu | SRtu => rtu_adu end.
 
 Definition chk_e2e_serial (c : serial_case) : bool * bool :=
   match sassoc (s_fe c) GenServer.frontends with
@@ -48,7 +53,8 @@ Definition chk_e2e_serial (c : serial_case) : bool * bool :=
         match s_kind c with
         | SAscii => let r := ascii_server_run sk (s_cfg c) units (s_chunks c) in
                     (e_out r, e_units r, match e_fault r, e_stop r with None, None => true | _, _ => false end)
-        | SRtu => ([], [], false)
+        | SRtu => let r := rtu_server_run sk (s_cfg c) units (s_chunks c) in
+                  (e_out r, e_units r, match e_fault r, e_stop r with None, None => true | _, _ => false end)
         end in
       (wf && clean && CorrE2E.bytes_eqb out (s_written c) && stores_match fin (s_final c),
        match spec_check_g (serial_adu (s_kind c)) (has_bcast_of sk) (s_cfg c)
